@@ -383,7 +383,12 @@ class Explorer:
             if c.post is not None:
                 extra = {'result': result, 'old': SObj(None, old.fields, 'old')}
                 for k, cond in self._call_spec(P, c.post, bound, extra).items():
-                    P.oblige(f'{short}#post[{k}]', 'post', P.truthy(cond))
+                    cond = P.truthy(cond)
+                    P.oblige(f'{short}#post[{k}]', 'post', cond)
+                    if c.opts.get('chain'):
+                        # proof steps: a clause, once stated as an obligation, is a fact for the *later* clauses
+                        # (sound by induction over the clause order; an open step leaves the contract open)
+                        P.assume(cond, fact=True)
             for callee, cnt in c.opts.get('call_counts', {}).items():
                 P.oblige(f'{short}#calls[{callee}=={cnt}]', 'calls', P.modular_calls.get(callee, 0) == cnt)
             # frame: inputs unchanged unless listed in modifies
